@@ -579,7 +579,7 @@ class H5Writer:
                 return
 
             name_map = KEY_MAP[attribute]
-            if isinstance(entity, Concatenator):
+            if isinstance(entity, Concatenator) and attribute == "concatenated_attributes":
                 entity_handle = entity_handle["Concatenated Data"]
 
                 if (
